@@ -54,7 +54,19 @@ def run(ctx):
             heap = e1.read_heap(mcase)
             desc = e1.describe(mcase, heap)
             desc.update(event=event, n_actions=n_actions)
-            snaps, raised = e1.run_impl(case, n_actions=n_actions, event=event, arg=arg)
+            # tracepoints sharing the event collect DIFFERENTLY half of the time (own watches, own limits)
+            per_action = None
+            if n_actions > 1 and ctx.rng.random() < 0.5:
+                per_action = []
+                for k in range(n_actions):
+                    ws = list(case["watches"])
+                    ctx.rng.shuffle(ws)
+                    ws = ws[:ctx.rng.randrange(len(ws) + 1)] + [("own%d()" % k, ctx.rng.choice(["billing", "shipping", [k, k + 1], {"k": k}]))]
+                    lk = dict(case["limits"], max_vars=ctx.rng.choice([case["limits"]["max_vars"], 2, 1000]),
+                              max_str=ctx.rng.choice([case["limits"]["max_str"], 3]))
+                    per_action.append(dict(watches=ws, limits=lk))
+                    case["keep"].append(ws)
+            snaps, raised = e1.run_impl(case, n_actions=n_actions, event=event, arg=arg, per_action=per_action)
             hostile_reach = any(r["unprintable"] or r["ty"] in ("bytes", "datetime", "deque", "Color", "Slotted", "generator",
                                                                 "list_iterator", "BadGetattr", "BadLen", "MyErr", "OD")
                                 for r in heap.objs)
@@ -67,10 +79,17 @@ def run(ctx):
                 ctx.fail("%d snapshot(s) produced for %d due tracepoint(s) on a %s event" % (len(snaps), n_actions, event), desc,
                          tag="snapshot-lost")
                 continue
-            views = []
-            for s in snaps:
+            views, mcases, heaps = [], [], []
+            for k, s in enumerate(snaps):
+                mk = dict(mcase)
+                if per_action is not None:
+                    mk["watches"] = per_action[k]["watches"] + ([(event, arg)] if event != "line" else [])
+                    mk["limits"] = per_action[k]["limits"]
+                hk = e1.read_heap(mk) if per_action is not None else heap
+                mcases.append(mk)
+                heaps.append(hk)
                 try:
-                    obs = e1.observe(s, heap)
+                    obs = e1.observe(s, hk)
                 except Exception as ex:
                     ctx.fail("snapshot cannot be related to the program's objects: %r" % (ex,), desc, tag="unrelated")
                     obs = None
@@ -79,25 +98,27 @@ def run(ctx):
                     ctx.fail("snapshot could not be converted for delivery (dropped)", desc, tag="undeliverable")
             if any(v is None for v in views):
                 continue
-            # every snapshot complete on its own: same frames / variables as the first, closed table
+            # every snapshot complete on its own: closed table, its own watches; identical tracepoints give identical snapshots
             for k, obs in enumerate(views):
-                c07.oracle(ctx, mcase, heap, obs, desc)
-                if obs["frames"] != views[0]["frames"] or obs["table"] != views[0]["table"] or obs["watches"] != views[0]["watches"]:
+                c07.oracle(ctx, mcases[k], heaps[k], obs, desc)
+                if per_action is None and (obs["frames"] != views[0]["frames"] or obs["table"] != views[0]["table"] or obs["watches"] != views[0]["watches"]):
                     ctx.fail("snapshot %d of %d on one event differs from the first (shared/emptied state)" % (k + 1, n_actions),
                              desc, tag="not-independent")
+                if any(snaps[k].var_lookup is snaps[q].var_lookup for q in range(len(snaps)) if q != k):
+                    ctx.fail("two snapshots of one event hold the SAME variable table object", desc, tag="shared-table")
                 top = case["frames"][0]["locals"]
                 flags = e1.collect_flags(case)
-                if flags[0] and len(top) < case["limits"]["max_vars"] and case["limits"]["max_depth"] > 1:
+                if flags[0] and len(top) < mcases[k]["limits"]["max_vars"] and mcases[k]["limits"]["max_depth"] > 1:
                     got = {v["name"] for v in obs["frames"][0]["vars"]}
                     if got != set(top.keys()):
                         ctx.fail("locals %s missing from the frame" % sorted(set(top.keys()) - got), desc, tag="locals-missing")
                 # every entry carries the real type name; printable values carry their text
                 for e in obs["table"]:
-                    rec = heap.objs[e["oid"]] if e["oid"] is not None else None
+                    rec = heaps[k].objs[e["oid"]] if e["oid"] is not None else None
                     if rec is not None and e["ty"] != rec["ty"]:
                         ctx.fail("entry type %r for an object of type %r" % (e["ty"], rec["ty"]), desc, tag="type")
                 try:
-                    lits.append(e1.snap_literal(mcase, heap, obs, e1.collect_flags(mcase)))
+                    lits.append(e1.snap_literal(mcases[k], heaps[k], obs, e1.collect_flags(mcases[k])))
                     cj.append(desc)
                 except ValueError as ex:
                     ctx.fail("snapshot cannot be related to the program's objects: %s" % ex, desc, tag="unrelated")
